@@ -130,6 +130,12 @@ pub fn generate(g: &mut Gen, thorough: bool) {
             }
         }
     }
+    // shadowing holds for the steps of a pipeline as for a definition on its own
+    for kind in ["default", "plain"] {
+        for name in ["addone", "noop", "helmert", "cart", "utm", "myop", "inv2", "push", "pop", "stack"] {
+            g.push(format!("S_C18P\t{kind}\t{name}"), "oracle-shadowing-in-pipelines", true);
+        }
+    }
     // registering a name again
     for kind in ["default", "new", "plain", "plain-new"] {
         for (name, b1, b2) in [
